@@ -26,6 +26,14 @@ struct HarvestingTest : public cola::TestConvergence {
     }
 };
 
+// PreIteration with node locks: the locked nodes are dragged to a second set of positions at the third iteration
+// (an interactive drag); locks are heavy desired positions for the projection, never a licence to drop a constraint
+struct DragLocks : public cola::PreIteration {
+    cola::Locks mine, second; int calls;
+    DragLocks(const cola::Locks &a, const cola::Locks &b) : cola::PreIteration(mine), mine(a), second(b), calls(0) {}
+    bool operator()() { ++calls; changed = (calls == 1 || calls == 3); if (calls == 3) mine = second; return true; }
+};
+
 static std::string runGuarded(const std::function<void()> &f) {
     try { f(); return "none"; }
     catch (cola::InvalidVariableIndexException &e) { return "InvalidVariableIndexException"; }
@@ -107,11 +115,25 @@ static void layoutCase(long k, const vh::Args &a) {
     if (r.coin(1, 3)) shuffleCCs(r, s);
     bool overlap = r.coin(1, 3), nstress = r.coin(1, 4);
     unsigned iters = (unsigned) r.range(1, thorough ? 30 : 12);
+    // a third of the force-directed runs: node locks (PreIteration, dragged once) and/or desired positions
+    unsigned nlocks = (algo <= 3 && algo != 1 && r.coin(1, 3)) ? (unsigned) r.range(1, std::max(1u, n / 2)) : 0;
+    unsigned ndes = (algo <= 3 && algo != 1 && r.coin(1, 4)) ? (unsigned) r.range(1, std::max(1u, n / 2)) : 0;
+    cola::Locks locksA, locksB; cola::DesiredPositions desired;
+    for (unsigned i = 0; i < nlocks; ++i) {
+        unsigned id = (unsigned) r.range(0, n - 1);
+        locksA.push_back(cola::Lock(id, (double) r.range(-100, 300), (double) r.range(-100, 300)));
+        locksB.push_back(cola::Lock(id, (double) r.range(-100, 300), (double) r.range(-100, 300)));
+    }
+    for (unsigned i = 0; i < ndes; ++i) {
+        cola::DesiredPosition d; d.id = (unsigned) r.range(0, n - 1); d.x = (double) r.range(-100, 300); d.y = (double) r.range(-100, 300);
+        d.weight = r.coin() ? 1.0 : 1000.0; desired.push_back(d);
+    }
     const char *an[] = {"fdrun", "fdmf", "fdmfrun", "fdmfrun", "cml"};
     std::string tag = std::string(an[algo]) + (s.planted ? "-unsat" : "-sat");
     if (wantMain) vh::beginCase(k, tag.c_str()); else vh::beginCase(k + 1, (std::string("sizes-") + an[algo]).c_str());
     printScene(s);
     printf("algo %s\noverlap %d\nnstress %d\niters %u\n", an[algo], (int) overlap, (int) nstress, iters);
+    printf("locks %u\ndesired %u\n", nlocks, ndes);
     fflush(stdout);
     std::vector<std::pair<double, double> > size0;
 
@@ -123,9 +145,11 @@ static void layoutCase(long k, const vh::Args &a) {
     std::string exc;
     if (algo <= 3) {
         cola::TestConvergence test(1e-4, iters);
-        cola::ConstrainedFDLayout alg(rs, s.edges, s.ideal, el, &test);
+        DragLocks pre(locksA, locksB);
+        cola::ConstrainedFDLayout alg(rs, s.edges, s.ideal, el, &test, nlocks ? &pre : nullptr);
         alg.setConstraints(ccs);
         alg.setUnsatisfiableConstraintInfo(&ux, &uy);
+        if (ndes) alg.setDesiredPositions(&desired);
         alg.setAvoidNodeOverlaps(overlap);
         alg.setUseNeighbourStress(nstress);
         exc = runGuarded([&]() {
